@@ -121,7 +121,7 @@ class Model:
 def screen_params(draw):
     kind = draw(st.sampled_from(["vk", "fried"]))
     ps = draw(st.one_of(gen.logfloat(0.02, 0.5), st.sampled_from([1, 2])))
-    p = {"kind": kind, "nx": draw(st.integers(2, 14)), "ps": ps, "r0": draw(gen.logfloat(0.05, 1.0)), "L0": ps * draw(gen.logfloat(5.0, 500.0)),
+    p = {"kind": kind, "nx": draw(st.integers(2, 14)), "ps": ps, "r0": draw(gen.logfloat(0.05, 1.0)), "L0": ps * draw(c04.RATIO),
          "gen": draw(st.sampled_from(["scripted", "scripted", "real"])), "seed": draw(st.integers(0, 2**32 - 1))}
     if kind == "vk":
         p["ncol"] = draw(st.integers(1, min(3, p["nx"])))
@@ -203,14 +203,16 @@ def stab_body(ctx, p):
     G[:nx] = B
     rho = float(np.max(np.abs(np.linalg.eigvals(F))))
     ctx.residual("spectral radius of the row recursion", rho, 1.0)
-    ctx.require(rho < 1.0, "the row recursion is not stable: spectral radius %.9f >= 1 (nx=%d, n_columns=%d, L0/pixel=%.3g)" % (rho, nx, nc, p["L0"] / p["ps"]))
+    # eigenvalues of the non-normal companion matrix are computed to ~1e-12; 1 - rho is of the order pixel/L0 >= 1e-6 here
+    ctx.require(rho < 1.0 + 1e-9, "the row recursion is not stable: spectral radius %.9f >= 1 (nx=%d, n_columns=%d, L0/pixel=%.3g)" % (rho, nx, nc, p["L0"] / p["ps"]))
     pos = np.stack([np.repeat(np.arange(nc), nx), np.tile(np.arange(nx), nc)], axis=1).astype(float) * p["ps"]
     S = c04.sigma(pos, pos, p["r0"], p["L0"])
     B0 = float(vk.B(0.0, p["r0"], p["L0"]))
     amp = 1.0 + float(np.max(np.sum(np.abs(A), axis=1)))
+    unit = 2.3e-16 * float(np.linalg.cond(S)) + 1e-14          # see C04: residual of an explicit double-precision inverse
     res = float(np.max(np.abs(F @ S @ F.T + G @ G.T - S))) / B0
-    ctx.residual("fixed-point residual over B(0), per unit (1+|A|_inf)^2", res / amp ** 2, 2e-6)
-    ctx.require(res <= 2e-6 * amp * amp, "the theoretical von Karman covariance is not a fixed point of the row recursion: residual %.3g B(0)" % res)
+    ctx.residual("fixed-point residual over B(0), per unit eps cond (1+|A|_inf)^2", res / (amp ** 2 * unit), 8.0)
+    ctx.require(res <= 8.0 * unit * amp * amp, "the theoretical von Karman covariance is not a fixed point of the row recursion: residual %.3g B(0) (tolerance %.3g)" % (res, 8.0 * unit * amp * amp))
     # the unique stationary covariance (discrete Lyapunov equation) therefore equals the theoretical one
     if rho < 0.9995:
         X = linalg.solve_discrete_lyapunov(F, G @ G.T)
